@@ -1,5 +1,6 @@
 """C04 - each client request is forwarded to the backend at most once."""
 import collections
+import os
 
 from lib import common as C
 from lib import servsched
@@ -51,7 +52,21 @@ class C04(Prop):
             for k in ("fetch_scripts", "invocations", "uploads", "fetch_attempts"):
                 h[k] = h.get(k) or {}
         sv = servsched.run(ctx, race=False)
-        return {"histories": rows, "server": sv}
+        # the real agent process told to shut down gracefully while a pending-list call is in flight: the IDs that call returns
+        # were handed to this agent by the proxy and to nobody else (the lifecycle driver of C20, these scenarios only)
+        agent = os.path.join(ctx.work, "agent")
+        ok, log, dt = C.build_repo_binary("agent", agent)
+        if not ok:
+            raise RuntimeError("cannot build /repo/agent: " + log[-1500:])
+        tool = C.ensure_tool("lifecycle", "./cmd/lifecycle")
+        outp = os.path.join(ctx.work, "life_late.jsonl")
+        if os.path.exists(outp):
+            os.remove(outp)
+        rc, out, dt = C.run([tool, "-agent", agent, "-out", outp, "-tier", ctx.tier, "-only", "poll-in-flight-lists-a-request"], timeout=600, preexec_fn=C.default_signals)
+        late = C.read_jsonl(outp)
+        if rc != 0 or not late:
+            raise RuntimeError("lifecycle harness (late-listed scenarios) did not run: rc=%s %s" % (rc, out[-1500:]))
+        return {"histories": rows, "server": sv, "late": late}
 
     def oracle(self, ctx, obs):
         res = []
@@ -73,6 +88,12 @@ class C04(Prop):
                     res.append(("agent:not-forwarded", "request %s was served without error by the proxy but never forwarded" % i, rp))
                 if h["fetch_attempts"].get(i, 0) > 3 and inside:
                     res.append(("agent:too-many-fetch-attempts", "request %s was fetched %d times" % (i, h["fetch_attempts"][i]), rp))
+        for r in obs.get("late") or []:
+            sc = r["scenario"]
+            if r.get("late_fetched_ms", -1) < 0 or r.get("late_backend_calls") != 1 or not r.get("late_upload_ok"):
+                res.append(("agent:listed-during-shutdown-not-forwarded", "the pending-list call in flight when SIG%s arrived was answered with a request ID; the agent had %d ms of grace left and forwarded that request %s time(s) (fetched: %s, answered in full: %s)" % (
+                    sc.get("signal"), sc.get("grace_ms"), r.get("late_backend_calls"), r.get("late_fetched_ms", -1) >= 0, r.get("late_upload_ok")),
+                    {"driver": "harness/cmd/lifecycle -only poll-in-flight-lists-a-request: real agent binary, fake proxy, signal sent while a list call is in flight", "scenario": sc, "observed": {k: v for k, v in r.items() if k not in ("scenario", "stderr_tail")}}))
         res += servsched.oracle_crash(obs["server"])
         # IDs that repeat (within one proxy life or across restarts) make the agent's record of IDs it has already
         # dispatched suppress a new request: listed as pending, never forwarded
